@@ -462,6 +462,7 @@ func TestVerif_C18(t *testing.T) {
 				r.NontrivialByConstruction(1)
 				detail := map[string]any{"tree": tdesc, "pre": pre.name, "options": opt.String(), "restore_error": fmt.Sprint(rerr), "errors_reported": nerr, "first_error": strings.ReplaceAll(firstErr, s.sb, "<sb>"),
 					"layout": "target=<sb>/mid/target; outside=<sb>/outside{file,ro,dir/{f,s,l,sub/{f,g}},empty}; <sb>/mid/{sibling,targetx/f}"}
+				r.Sample(detail)
 				if panicked {
 					r.Violationf(c.key, "C18|panic|"+c.key, detail, "RestoreTo panicked on a forged tree: %s", pmsg)
 					continue
